@@ -552,6 +552,12 @@ func (s *UDPSessionRelay) relayServerConnToNatConnGeneric(ctx context.Context, u
 			)
 		}
 
+		// Stop may have expired the read deadline to shut the session down while this
+		// packet was being sent: do not let the re-arm above undo that.
+		if ctx.Err() != nil {
+			_ = uplink.natConn.SetReadDeadline(conn.ALongTimeAgo)
+		}
+
 		packetsSent++
 		payloadBytesSent += uint64(queuedPacket.length)
 		s.putQueuedPacket(queuedPacket)
